@@ -1573,6 +1573,50 @@ Section ExFacts.
         apply gnth_lt; [exact Hinc | lia | unfold nlen; lia].
   Qed.
   End EndValues.
+  (* ================================================================== *)
+  (* the premise of [potential_shift] is satisfiable for every potential: *)
+  (* adding c to the constant coefficient of every piece                  *)
+  (* ================================================================== *)
+  Definition shift_piece (c : F) (p : list F) : list F :=
+    match p with [] => [] | a :: q => (a + c)%F :: q end.
+
+  Definition spl_shift (v : spline F) (c : F) : spline F :=
+    mkSpl (ssup v) (sord v) (map (shift_piece c) (scoefs v)).
+
+  Lemma length_shift_piece c (p : list F) : length (shift_piece c p) = length p.
+  Proof. destruct p; reflexivity. Qed.
+
+  Lemma spl_shift_inv (v : spline F) c : SplInv v -> SplInv (spl_shift v c).
+  Proof.
+    intros (H1 & H2 & H3 & H4). unfold SplInv. cbn [spl_shift ssup sord scoefs].
+    split; [exact H1|]. split; [exact H2|]. split; [rewrite nlen_map; exact H3|].
+    apply Forall_map. eapply Forall_impl; [|exact H4].
+    intros p Hp. cbv beta in *. rewrite length_shift_piece. exact Hp.
+  Qed.
+
+  Lemma piece_spl_shift (v : spline F) c k u : SplInv v -> imem k (ssup v) ->
+    peval (piece (spl_shift v c) k) u = (peval (piece v k) u + c)%F.
+  Proof.
+    intros Hv Hk. destruct (piece_in v k Hv Hk) as [_ Lp].
+    rewrite !piece_eq in *. cbn [spl_shift ssup scoefs].
+    destruct (inb (ssup v) k); [|cbn [length] in Lp; lia].
+    rewrite (nth_map_nil (shift_piece c)) by reflexivity.
+    destruct (nth (N.to_nat (k - sstart (ssup v))) (scoefs v) []) as [|a0 q];
+      [cbn [length] in Lp; lia|].
+    cbn [shift_piece peval]. ring.
+  Qed.
+
+  Corollary potential_shift_const (v : spline F) c basis h s :
+    SplInv v -> sstart (ssup v) = 0%N /\ sstop (ssup v) = nlen (sgridp v) ->
+    pot_matrices ORDER v = Ok (basis, h, s) ->
+    exists h', pot_matrices ORDER (spl_shift v c) = Ok (basis, h', s) /\
+      forall i j, nth j (nth i h' []) f0 = (nth j (nth i h []) f0 + c * nth j (nth i s []) f0)%F.
+  Proof.
+    intros Hv Hw Hm.
+    destruct (potential_shift v (spl_shift v c) c basis h s Hv (spl_shift_inv v c Hv) eq_refl Hw
+                (fun k u Hk => piece_spl_shift v c k u Hv Hk) Hm) as (h' & E & _ & _ & Hent).
+    exists h'. auto.
+  Qed.
 End ExFacts.
 
 (* ====================================================================== *)
